@@ -77,7 +77,10 @@ extern volatile int v_fault_write;
 /* usage: if (V_TRY()) { call } else { fault happened: v_fault_addr/rip set }  V_END(); */
 #define V_TRY() (v_fault_armed = 1, sigsetjmp(v_fault_jmp, 1) == 0)
 #define V_END() (v_fault_armed = 0)
-const char *v_sym(uintptr_t addr);  /* symbolise an address of this executable ("sym+0x12") */
+const char *v_sym(uintptr_t addr);
+const char *v_fault_desc(void);      /* human-readable description of the last captured fault */
+int wm_owns(uintptr_t a);
+extern volatile int v_fault_sig;  /* symbolise an address of this executable ("sym+0x12") */
 
 /* ---------- library-owned writable memory (write monitor) ---------- */
 void wm_range(uintptr_t *lo, uintptr_t *hi);
